@@ -37,26 +37,54 @@ def execute(c):
         mk = lambda v: np.array(v, dtype=it)
         cc = int(round(cc))
         o, d = mk(o), mk(d)
+    # every centre is handed over in its own buffer; in a third of the cases the caller re-uses (overwrites) those buffers once the solids are built:
+    # a solid is what it was built as, whatever happens to the arrays it was built from
+    bufs = []
+
+    def buf(v):
+        w = np.array(v)
+        bufs.append(w)
+        return w
+
+    def built():
+        if lib.vid(c) % 3 == 1:
+            for w in bufs:
+                w += 1000 if w.dtype.kind == "i" else 1234.5
+                w *= 3
+
     if k == "sphere":
-        v = VolSphere(o, a).get_volume()
+        s = VolSphere(buf(o), a); built()
+        v = s.get_volume()
     elif k == "cap":
-        v = VolSphere(o, a).get_volume_spherical_cap(b)
+        s = VolSphere(buf(o), a); built()
+        v = s.get_volume_spherical_cap(b)
     elif k == "frustum":
-        v = (VolFrustumCone(o + d * cc, b, o, a) if rev else VolFrustumCone(o, a, o + d * cc, b)).get_volume()
+        f = VolFrustumCone(buf(o + d * cc), b, buf(o), a) if rev else VolFrustumCone(buf(o), a, buf(o + d * cc), b)
+        built()
+        v = f.get_volume()
     elif k in ("lens", "union2"):
-        s1, s2 = VolSphere(o, a), VolSphere(o + d * cc, b)
+        s1, s2 = VolSphere(buf(o), a), VolSphere(buf(o + d * cc), b)
+        built()
         if rev:
             v = (s2.intersect(s1) if k == "lens" else s2.union(s1)).get_volume()
         else:
             v = (s1.intersect(s2) if k == "lens" else s1.union(s2)).get_volume()
     else:
-        f = VolFrustumCone(o + d * cc, b, o, a) if rev else VolFrustumCone(o, a, o + d * cc, b)
+        s = VolSphere(buf(o), a)
+        if lib.vid(c) % 2 == 0:
+            # a history: the same sphere object was first asked about short-lived frusta of other lengths and tapers (each freed before the next is made)
+            for j in range(1, 4):
+                g = VolFrustumCone(o, a, o + d * (cc * (j + 1)), b * j / 2)
+                s.intersect(g).get_volume()
+                s.union(g).get_volume()
+                del g
+        f = VolFrustumCone(buf(o + d * cc), b, buf(o), a) if rev else VolFrustumCone(buf(o), a, buf(o + d * cc), b)
+        built()
         if lib.vid(c) % 2:
             # a history: the same frustum object was first asked about short-lived spheres on its other end and on this end
-            VolSphere(o + d * cc, b).intersect(f).get_volume()
-            VolSphere(o + d * cc, b).union(f).get_volume()
-            VolSphere(o, a).intersect(f).get_volume()
-        s = VolSphere(o, a)
+            VolSphere(f.c1 if rev else f.c2, b).intersect(f).get_volume()
+            VolSphere(f.c1 if rev else f.c2, b).union(f).get_volume()
+            VolSphere(f.c2 if rev else f.c1, a).intersect(f).get_volume()
         if k == "sphfru":
             v = s.intersect(f).get_volume()
         else:
